@@ -152,8 +152,8 @@ def correspondence(rep, ctx):
             prog = [str(p_) for p_ in n0.progeny()]
             others = r.sample(names, min(3, len(names)))
             for p_ in prog + others:
-                if p_ not in names and p_ != "SF":
-                    continue
+                if p_ not in names:
+                    continue          # incl. the pseudo-progeny 'SF': it is not a nuclide, a look-up naming it is refused
                 rep.case(("reversed", k, nm, p_))
                 rep.dist("reversed-list-dataset")
                 try:
@@ -175,6 +175,32 @@ def correspondence(rep, ctx):
             rev = rd.Nuclide(nm, ds)
             if list(rev.progeny()) != prog[::-1] or [float(x) for x in rev.branching_fractions()] != [float(x) for x in n0.branching_fractions()][::-1]:
                 fail(f"lists of {nm!r} on the reversed-list dataset", "do not follow that dataset's own lists")
+    # ---- the dataset still reports the same lists after decay-chain diagrams and plots were drawn from it (chains with
+    #      spontaneous fission, isomers, long and short chains): lists through all three interfaces vs the snapshot
+    import matplotlib
+    matplotlib.use("Agg")
+    import matplotlib.pyplot as plt
+    snapshot = {nm: (list(dd.progeny[i]), list(dd.bfs[i]), list(dd.modes[i]), tuple(dd.hldata[i])) for i, nm in enumerate(view.names)}
+    sf_parents = [nm for i, nm in enumerate(view.names) if "SF" in [str(p) for p in dd.progeny[i]]]
+    drawn = r.sample(sf_parents, min(3, len(sf_parents))) + ["U-238", "Cf-252", "Mo-99"] + [view.names[i] for i in r.sample(range(view.n), 3)]
+    for nm in drawn:
+        try:
+            fig, ax = rd.Nuclide(nm).plot()
+            plt.close(fig)
+            fig, ax = rd.Inventory({nm: 1.0}, "num").plot(1.0, "d", npoints=2) if view.rate[view.index[nm]] != 0 else (None, None)
+            if fig is not None:
+                plt.close(fig)
+        except Exception as e:  # noqa: BLE001
+            fail(f"Nuclide({nm!r}).plot()", f"raised {type(e).__name__}: {e}")
+    rep.dist("after-plots", len(drawn))
+    for i, nm in enumerate(view.names):
+        now = (list(dd.progeny[i]), list(dd.bfs[i]), list(dd.modes[i]), tuple(dd.hldata[i]))
+        nuc = rd.Nuclide(nm)
+        if now != snapshot[nm] or list(nuc.progeny()) != snapshot[nm][0] or list(nuc.decay_modes()) != snapshot[nm][2]:
+            fail(f"progeny/branching_fractions/decay_modes of {nm!r} after drawing the diagrams of {drawn}",
+                 f"now {now[0]} / {list(nuc.progeny())}, before {snapshot[nm][0]}")
+            break
+    rep.case(("after-plots", tuple(drawn)))
     # ---- synthetic datasets loaded through load_dataset(dir_path=…): queries vs the model run on the same dataset
     import synthetic
     for k in range(8 if thorough else 2):
